@@ -65,8 +65,14 @@ func (sc *Scenario) String() string {
 }
 
 func genValue(t *rapid.T) string {
-	k := rapid.IntRange(0, 6).Draw(t, "valKind")
+	k := rapid.IntRange(0, 40).Draw(t, "valKind")
+	if k > 6 && k < 40 {
+		k = 5 + k%2
+	}
 	switch k {
+	case 40:
+		// a large value: several zstd blocks, a stored chunk far bigger than any reused buffer
+		return strings.Repeat("large-stored-value-", rapid.SampledFrom([]int{500, 8000}).Draw(t, "bigRep"))
 	case 0:
 		return ""
 	case 1:
@@ -148,6 +154,59 @@ func genField(t *rapid.T, sc *Scenario, allowed []string) Field {
 		f.Value = genValue(t)
 	}
 	return f
+}
+
+// GenBatchManyFields draws a small batch over 130..300 field names, so that
+// field ids need two-byte varints in the location streams and in the stored
+// meta data; locations name high-numbered fields.
+func GenBatchManyFields(t *rapid.T, sc *Scenario) Batch {
+	nNames := rapid.IntRange(130, 300).Draw(t, "nFieldNames")
+	names := make([]string, nNames)
+	for i := range names {
+		names[i] = fmt.Sprintf("f%03d", i)
+	}
+	b := Batch{{}}
+	// one document defines every field (so that all ids exist), the others use a few of them
+	for i, n := range names {
+		f := Field{Name: n, Len: 1, Terms: []Term{{T: fmt.Sprintf("t%d", i%5), Freq: 1}}, DV: sc.Schema["a"] == dvAlways && i%2 == 0}
+		if i%37 == 0 {
+			f.Store, f.Value = true, n
+		}
+		b[0].Fields = append(b[0].Fields, f)
+	}
+	nDocs := rapid.IntRange(1, 5).Draw(t, "nDocs")
+	for d := 0; d < nDocs; d++ {
+		var doc Doc
+		nf := rapid.IntRange(1, 4).Draw(t, "nFields")
+		for k := 0; k < nf; k++ {
+			fi := rapid.IntRange(0, nNames-1).Draw(t, "fieldIdx")
+			f := Field{Name: names[fi], DV: sc.Schema["a"] == dvAlways && fi%2 == 0}
+			nt := rapid.IntRange(1, 3).Draw(t, "nTerms")
+			for x := 0; x < nt; x++ {
+				tm := Term{T: rapid.SampledFrom([]string{"", "t0", "t1", "x", "yy"}).Draw(t, "term")}
+				nl := rapid.IntRange(0, 2).Draw(t, "nLocs")
+				for l := 0; l < nl; l++ {
+					lf := ""
+					if rapid.Bool().Draw(t, "locOther") {
+						lf = names[rapid.IntRange(0, nNames-1).Draw(t, "locFieldIdx")]
+					}
+					tm.Locs = append(tm.Locs, Loc{Field: lf, Pos: rapid.SampledFrom(posVals).Draw(t, "pos"), Start: l, End: l + 1})
+				}
+				tm.Freq = nl + rapid.IntRange(0, 1).Draw(t, "xf")
+				if tm.Freq == 0 {
+					tm.Freq = 1
+				}
+				f.Terms = append(f.Terms, tm)
+				f.Len += tm.Freq
+			}
+			if rapid.Bool().Draw(t, "store") {
+				f.Store, f.Value = true, fmt.Sprintf("v-%s-%d", names[fi], d)
+			}
+			doc.Fields = append(doc.Fields, f)
+		}
+		b = append(b, doc)
+	}
+	return b
 }
 
 // fixLocFields enforces "a location's field name is empty or names a field
